@@ -278,6 +278,13 @@ func (bkt *Bucket) checkForDump(dumpthreshold int) bool {
 // called by hstore, data already flushed
 func (bkt *Bucket) close() {
 	logger.Infof("closing bucket %s", bkt.Home)
+	// flush every chunk that still holds buffered records, not only the head: the flush
+	// spawned by a data-file rotation may not have run yet
+	for i := 0; i < bkt.datas.newHead; i++ {
+		if len(bkt.datas.chunks[i].wbuf) > 0 {
+			bkt.datas.flush(i, true)
+		}
+	}
 	bkt.datas.flush(-1, true)
 	datas, _ := filepath.Glob(fmt.Sprintf("%s/*.data", bkt.Home))
 	if len(datas) == 0 {
